@@ -66,6 +66,22 @@ def gen (n : Nat) : G (List String) := do
       else encBE 2 10 ++ encBE 2 (16 + nsets * one.length) ++ encBE 4 2 ++ encBE 4 3 ++ encBE 4 4
     let many : Bytes := (hdr ++ (List.replicate nsets one).flatten).take 9000
     out := out ++ [allocLine pipe e clock many 0]
+    -- (g) many header-only data sets of templates nobody announced (each reports template-not-found: the error of the datagram
+    --     must not grow faster than the datagram), and many 7-byte data sets of a known template with one variable-length
+    --     element, each record announcing 65535 absent bytes in the three-byte length form
+    let ver3 ← pick [9, 10]
+    let nset ← pick [600, 1500, 2240]
+    let tiny : Bytes := (List.range nset).flatMap fun j => encBE 2 (256 + j % 3000) ++ encBE 2 4
+    let hdr3 : Bytes := if ver3 = 9 then encBE 2 9 ++ encBE 2 nset ++ encBE 4 1 ++ encBE 4 2 ++ encBE 4 3 ++ encBE 4 77
+      else encBE 2 10 ++ encBE 2 (16 + tiny.length) ++ encBE 4 2 ++ encBE 4 3 ++ encBE 4 77
+    out := out ++ [allocLine pipe e clock (hdr3 ++ tiny) 0]
+    let vtid := 700 + i % 50
+    let vtpl : Msg := ⟨10, 0, 1, 2, 3, 78, [.template [(vtid, [⟨1300, 0xffff, none⟩])] 0]⟩
+    out := out ++ [allocLine pipe e clock (encode { vtpl with count := 1 }) 2]
+    let nv ← pick [100, 700, 1280]
+    let oneV : Bytes := encBE 2 vtid ++ encBE 2 7 ++ [0xff, 0xff, 0xff]
+    let vbody : Bytes := (List.replicate nv oneV).flatten
+    out := out ++ [allocLine pipe e clock (encBE 2 10 ++ encBE 2 (16 + vbody.length) ++ encBE 4 2 ++ encBE 4 3 ++ encBE 4 78 ++ vbody) 2]
     -- (f) the largest sFlow datagrams the receive buffer holds, made of minimal samples each claiming 1000 records
     --     (the cap): 448 counter samples of 20 bytes / 224 flow samples of 40 bytes
     let many2 : Bytes ← (do
